@@ -375,7 +375,8 @@ structure BlockObj where
   time : Nat
   merkleRoot : Bytes
   trusted : Bool
-  build : List Tx                 -- what BuildTxList() leaves in bl.Txs for this Raw (all of them, or those before the failure)
+  build : Option (List Tx)        -- what BuildTxList() leaves in bl.Txs for this Raw: all of them, or those before the
+                                  -- failing one; none = it returns before assigning (corrupt count field)
   buildOk : Bool                  -- BuildTxList() returned nil
   -- assigned by CheckBlock
   height : Nat
@@ -415,12 +416,12 @@ def afterPre (bl : BlockObj) (o : PreOut) : BlockObj :=
 /-- the inputs of `postCheckBlock` for a block object that passed PreCheckBlock -/
 def postInOf (bl : BlockObj) : PostIn :=
   { rawLen := bl.rawLen, preParsed := bl.txs.isSome, buildOk := bl.buildOk, trusted := bl.trusted, height := bl.height,
-    mtp := bl.mtp, time := bl.time, merkleRoot := bl.merkleRoot, txs := bl.txs.getD bl.build }
+    mtp := bl.mtp, time := bl.time, merkleRoot := bl.merkleRoot, txs := bl.txs.getD (bl.build.getD []) }
 
 /-- the block object as PostCheckBlock leaves it: `bl.Txs` is assigned by BuildTxList when it was nil and the size
     test passed; `bl.VerifyFlags` when ApplyBlockFlags was reached -/
 def afterPost (bl : BlockObj) (e : PostErr) (flags : Nat) : BlockObj :=
-  { bl with txs := if bl.txs.isNone && decide (bl.rawLen ≥ postMinRawLen) then some bl.build else bl.txs,
+  { bl with txs := if bl.txs.isNone && decide (bl.rawLen ≥ postMinRawLen) then bl.build else bl.txs,
             verifyFlags := if e.setsFlags then flags else bl.verifyFlags }
 
 structure CheckRes where
